@@ -161,7 +161,7 @@ struct smoothed_aggregation {
             for(ptrdiff_t j = A_rem.ptr[i], e = A_rem.ptr[i+1]; j < e; ++j)
                 if (!S_rem.val[j]) dia_f += A_rem.val[j];
 
-            dia_f = -omega * math::inverse(dia_f);
+            if (!math::is_zero(dia_f)) dia_f = -omega * math::inverse(dia_f);
 
             for(ptrdiff_t j = A_loc.ptr[i], e = A_loc.ptr[i+1]; j < e; ++j) {
                 if (A_loc.col[j] == i) {
